@@ -840,6 +840,11 @@ std::ostream &language(std::ostream &s, symbol::format f, const i_mep &mep)
                                 ? terminal::cast(g.sym)->display(g.par, f)
                                 : function::cast(g.sym)->display(f));
 
+                // A negative literal must not glue to a preceding operator
+                // (`x--3.5`, `exp(--3.5)` aren't valid C / C++ / MQL).
+                if (g.sym->terminal() && !ret.empty() && ret.front() == '-')
+                  ret = "(" + ret + ")";
+
                 auto arity(g.sym->arity());
                 for (decltype(arity) i(0); i < arity; ++i)
                 {
